@@ -115,8 +115,12 @@ def make(u, names, f, axis_perm=None):
     return DiscreteFactor([names.L(v) for v in sc], [u["card"][v] for v in sc], list(f["values"]), **kw)
 
 
-def check_member(ctx, names, card, phi, ref, what, slot):
-    """pgmpy factor against its reference twin; also internal consistency (cardinality vs shape vs state names)."""
+def check_member(ctx, names, card, phi, ref, what, slot, strict_nonfinite=False):
+    """pgmpy factor against its reference twin; also internal consistency (cardinality vs shape vs state names).
+
+    x/0 = inf and 0/0 = 0 are defined for a division of finite factors (strict_nonfinite); what later arithmetic makes of an
+    inf (inf*0, inf-inf, summation order) is not defined by the property, so cells that are not finite in the reference are
+    then only required to be non-finite-or-anything, i.e. they are not compared."""
     try:
         vals = to_np(phi.values)
         if list(vals.shape) != [int(c) for c in phi.cardinality] or len(phi.variables) != vals.ndim:
@@ -127,7 +131,11 @@ def check_member(ctx, names, card, phi, ref, what, slot):
     except Mismatch as e:
         ctx.fail("labels", f"{PROP}:labels:{what}", {"slot": slot, "why": str(e)})
         return False
-    if not close(arr, ref.arr, atol=1e-9, rtol=1e-9):
+    a_cmp, r_cmp = np.asarray(arr, dtype=float), np.asarray(ref.arr, dtype=float)
+    if not strict_nonfinite and a_cmp.shape == r_cmp.shape and not np.all(np.isfinite(r_cmp)):
+        mask = np.isfinite(r_cmp)
+        a_cmp, r_cmp = a_cmp[mask], r_cmp[mask]
+    if not close(a_cmp, r_cmp, atol=1e-9, rtol=1e-9):
         ctx.fail("values", f"{PROP}:values:{what}", {"slot": slot, "scope": ref.scope, "maxdiff": maxdiff(arr, ref.arr), "got": np.asarray(arr).round(6).reshape(-1).tolist()[:8],
                                                      "want": np.asarray(ref.arr).round(6).reshape(-1).tolist()[:8]})
         return False
@@ -305,7 +313,8 @@ def execute(case, ctx):
                 ctx.fail("values", f"{PROP}:result_type:{k}", type(res).__name__)
                 return
             # the out-of-place result must be right *before* it joins the pool, and operands untouched
-            if not check_member(ctx, names, card, res, rres, k, "result"):
+            strict = k in ("divide", "factor_divide") and np.all(np.isfinite(ra.arr)) and np.all(np.isfinite(rb.arr))
+            if not check_member(ctx, names, card, res, rres, k, "result", strict_nonfinite=strict):
                 verify_all(k + ":operands")
                 return
             pool[dst] = res
@@ -321,6 +330,9 @@ def _eq_probe(ctx, u, names, a, ra, rr):
     sc = list(ra.scope)
     if not sc or not np.all(np.isfinite(ra.arr)):
         return  # x/0 = inf and inf*0 = nan are outside the equality clause (nan != nan by IEEE)
+    mags = np.abs(ra.arr[ra.arr != 0])
+    if mags.size and (mags.max() > 1e30 or mags.min() < 1e-30):
+        return  # under the torch backend a factor built from a list passes through float32 (range 1e-38..3e38)
     perm_axes = shuffled(rr, sc)
     # state order permutation per variable
     sperm = {v: shuffled(rr, range(u["card"][v])) for v in sc}
